@@ -781,7 +781,7 @@ pub(crate) fn check_if_response_is_matched(
         if reorg_count != last_n_blocks {
             let first_reorg_header = headers[0].header();
             // Genesis block doesn't have chain root, so blocks should be started from 1.
-            if first_reorg_header.number() != 1 {
+            if reorg_count > last_n_blocks || first_reorg_header.number() != 1 {
                 let errmsg = format!(
                     "failed to verify reorg last n headers since the count (={}) should be {} \
                     or the number(={}) of the first reorg block (hash: {:#x}) should 1,",
